@@ -246,6 +246,26 @@ fn kf_open() -> bool {
 fn check_comm(a: &ReplicatedValue, b: &ReplicatedValue) {
     let ab = a.merge(b);
     let ba = b.merge(a);
+    // KF-C07-02 delimited by its exact rule (as props/c07 since session 4): operands of different
+    // kinds -> the one with the newer outer stamp is kept whole, ties keep self; anything else is
+    // not the listed finding
+    if kind_of(&a.crdt) != kind_of(&b.crdt) {
+        for (x, y, xy, name) in [(a, b, &ab, "merge(a,b)"), (b, a, &ba, "merge(b,a)")] {
+            let keep = if y.timestamp > x.timestamp { y } else { x };
+            let want = peer_view(keep)["crdt"].clone();
+            let got = peer_view(xy)["crdt"].clone();
+            if want != got {
+                panic!(
+                    "kind mismatch resolved differently from the listed rule (newer outer stamp kept whole, ties keep self):\n  {}.crdt = {}\n  the rule keeps {}\n  a = {}\n  b = {}",
+                    name,
+                    got,
+                    want,
+                    show_val(a),
+                    show_val(b)
+                );
+            }
+        }
+    }
     if peer_view(&ab) == peer_view(&ba) {
         return;
     }
